@@ -174,10 +174,14 @@ def _value_el(t, v):
     return one(v)
 
 
-def valid_response(tag, name, pool, class_level=False, force_eos=False):
+def valid_response(tag, name, pool, class_level=False, force_eos=False,
+                   payload_of=None):
     """
     Well-formed, DTD-valid, semantically right response (text) for request
     element `tag` (IMETHODCALL/METHODCALL/EXPMETHODCALL) and method `name`.
+    With payload_of (an operation name) the IRETURNVALUE content and the
+    output parameters are those of that other operation ("wrong element for
+    the operation": still DTD-valid, NAME still that of the request).
     """
     if tag == 'EXPMETHODCALL':
         return _wrap(_cim_xml.EXPMETHODRESPONSE(name), export=True).toxml()
@@ -191,7 +195,9 @@ def valid_response(tag, name, pool, class_level=False, force_eos=False):
             bv = S.build_value(ot, ov)
             children.append(_cim_xml.PARAMVALUE(oname, _value_el(ot, bv), ot))
         return _wrap(_cim_xml.METHODRESPONSE(name, children)).toxml()
-    kind = KIND.get(name, 'void')
+    kind = KIND.get(payload_of or name, 'void')
+    if kind == 'export':
+        kind = 'void'
     kids = ireturn_children(kind, pool, class_level)
     children = []
     if kids is not None:
